@@ -43,7 +43,7 @@ def gen_exact(rng, n, tier):
         vals = rng.choice([[0, 1], [0, 1, 2, 3], [0, 1, 2, 5, 9]])
         dim = rng.choice([2, 2, 1])                                  # dim 1: the altitude column carries the signal, the abscissa is noise for the distance
         zv = (lambda: rng.choice(vals)) if dim == 1 else (lambda: rng.choice([0, 0, 3]))
-        out.append({'x1': [[rng.choice(vals), 0, zv()] for _ in range(n1)], 'x2': [[rng.choice(vals), 0, zv()] for _ in range(n2)], 'p': rng.choice([1, 2, INF]), 'dim': dim, 'rematch': rng.choice([None, None, None, 'dtw', 'frechet'])})
+        out.append({'x1': [[rng.choice(vals), 0, zv()] for _ in range(n1)], 'x2': [[rng.choice(vals), 0, zv()] for _ in range(n2)], 'p': rng.choice([1, 2, INF]), 'dim': dim, 'rematch': rng.choice([None, None, None, 'dtw', 'frechet']), 'ptype': rng.choice([None, None, 'float', 'np.int64', 'np.float64', 'np.int32'])})
     return out
 
 
@@ -53,7 +53,7 @@ def gen_planar(rng, n, tier):
         n1 = rng.randint(1, 6)
         n2 = rng.randint(1, 6)
         pt = lambda: [rng.randint(-30, 30) / 4.0, rng.randint(-30, 30) / 4.0, rng.choice([0.0, 0.0, rng.randint(-20, 20) / 4.0])]
-        out.append({'x1': [pt() for _ in range(n1)], 'x2': [pt() for _ in range(n2)], 'p': rng.choice([1, 2, INF]), 'dim': rng.choice([2, 2, 1, 3]), 'rematch': rng.choice([None, None, None, 'dtw', 'frechet'])})
+        out.append({'x1': [pt() for _ in range(n1)], 'x2': [pt() for _ in range(n2)], 'p': rng.choice([1, 2, INF]), 'dim': rng.choice([2, 2, 1, 3]), 'rematch': rng.choice([None, None, None, 'dtw', 'frechet']), 'ptype': rng.choice([None, None, 'float', 'np.int64', 'np.float64', 'np.int32'])})
     return out
 
 
@@ -77,6 +77,9 @@ def run_impl(case):
     cmp = sys.modules['tracklib.algo.comparison']
     t1, t2 = mk(case['x1']), mk(case['x2'])
     p = case['p']; dim = case.get('dim', 2)
+    if p != INF and case.get('ptype'):            # the same exponent in another numeric representation
+        import numpy as np
+        p = {'float': float, 'np.int64': np.int64, 'np.float64': np.float64, 'np.int32': np.int32}[case['ptype']](p)
     if case.get('rematch'):                       # the first track is itself the output of an earlier matching (a reference registered on several tracks in turn)
         t3 = mk(case['x2'][::-1] + case['x1'][:1])
         t1 = cmp.match(t1, t3, mode=cmp.MODE_MATCHING_FRECHET if case['rematch'] == 'frechet' else cmp.MODE_MATCHING_DTW, p=1, dim=dim, verbose=False)
